@@ -97,3 +97,31 @@ def tier_and_seed(argv=None):
     seed = int(os.environ.get("VERIF_SEED", "0") or 0)
     return tier, seed
 MISSING = _MISSING
+
+
+def generic_refutations(run, spec, prop, replay):
+    """refuted obligations -> native replay -> VIOLATION / KNOWN-FINDING / (weak candidates that do not replay) undecided"""
+    known = report.open_findings(prop)
+    groups = {}
+    for ob in spec.obligations:
+        if ob.status == "refuted":
+            groups.setdefault(ob.name, ob)
+    for name, ob in groups.items():
+        kf = next((k for k in known.values() if k.get("obligation") == name), None)
+        try:
+            found, payload = replay(ob)
+        except Exception as e:   # replay infrastructure failure: the refutation stands, no input
+            found, payload = False, {"obligation": name, "replay_error": repr(e), "model": report.model_summary(ob)}
+        if kf is not None:
+            run.known(f"{kf['id']}: {kf['what']}")
+            for o in spec.obligations:
+                if o.name == name and o.status == "refuted":
+                    o.status = "known"
+            continue
+        if getattr(ob, "weak", False) and not found:
+            for o in spec.obligations:
+                if o.name == name and o.status == "refuted":
+                    o.status = "undecided"
+                    o.note = "candidate counter-model (quantified hypotheses dropped) did not replay natively"
+            continue
+        run.violation(name, payload, found)
